@@ -98,7 +98,10 @@ def work_degenerate(chunk, st):
 BANNER_PRODUCTS = ['OpenSSH_', 'OpenSSH-', 'dropbear_', 'libssh-', 'libssh_', 'tinyssh_', 'PuTTY_Release_', 'Frob_']
 BANNER_VERSIONS = ['8..2p1', '.79', '8.', '8', '..', '.', '', '1.2.3.4.5.6.7.8', '99999999999999999999999.1', '8.2p', '8.2p99999999999999999999', '-1.2', '+8.2', '1e5.2',
                    '0x10.1', '8_2.1', '8.2 .1', '8.2-', '2020.81test', '2020.81test0', '0.0', '00008.0002', '8.\u0663', '8.\u00b2', '\u0668.2', '8.2p1 \u00e9', '%s', '{0}', '8.2\\n', '7.4p1 Debian-10+deb9u7 extra words',
-                   '8' * 300 + '.1', '1.' * 120 + '1']
+                   '8' * 300 + '.1', '1.' * 120 + '1', '9' * 4400 + '.1', '8.' + '9' * 4400, '8.2p' + '9' * 4400]
+# protocol-version fields of peer-chosen length (beyond what the interpreter converts to an integer by default): not well-formed
+# identification strings, so only the crash / hang / status clauses apply to them
+BANNER_PROTOS_LONG = ['2.' + '1' * 4400, '1.' + '9' * 4400, '2.' + '0' * 4400, '1.99-SSH-2.' + '7' * 4400]
 
 
 def banner_content_tasks():
@@ -118,6 +121,10 @@ def banner_content_tasks():
     for prod in BANNER_PRODUCTS:
         for v in BANNER_VERSIONS[:12]:
             out.append(('banner', '2.0', prod, v, 'server-gex'))
+    for proto in BANNER_PROTOS_LONG:
+        for prod, v in (('OpenSSH_', '9.6'), (None, ''), ('Frob_', '1')):
+            for role in ('server', 'client', 'server-gex'):
+                out.append(('banner', proto, prod, v, role))
     return out
 
 
@@ -140,7 +147,7 @@ def work_banner(chunk, st):
             else:
                 res = H.client_audit(peer.Client(banner=banner, **lists), opts=opts)
             st.execution(res.world, outcome=('banner', res.status, bool(res.hang)), root=('banner', proto, prod, v, role, gexsrv, fmt), nontrivial=('banner', proto, prod, v, role, gexsrv, fmt))
-            d = {'banner': banner.decode('utf-8'), 'role': role, 'fmt': fmt, 'status': res.status, 'stdout_tail': res.stdout[-300:], 'stderr_tail': res.stderr[-300:]}
+            d = {'banner': banner.decode('utf-8')[:300], 'role': role, 'fmt': fmt, 'status': res.status, 'stdout_tail': res.stdout[-300:], 'stderr_tail': res.stderr[-300:]}
             kind = 'recognised' if prod in BANNER_PRODUCTS[:5] else 'other'
             if res.hang or res.exc or res.status not in (0, 1, 2, 3):
                 st.violation('banner-content:crash-or-hang:%s:%s' % (kind, F._trace_site(res.stdout + res.stderr)), dict(d, hang=res.hang, exc=res.exc))
@@ -154,9 +161,59 @@ def work_banner(chunk, st):
                     complete = all([e['algorithm'] for e in doc.get(c, [])] == lists[c] for c in lists)
                 except ValueError:
                     complete = False
-            if not complete or res.status != 3:
+            if (not complete or res.status != 3) and proto not in BANNER_PROTOS_LONG:
                 st.violation('banner-content:wellformed-handshake-rejected:%s' % kind, d)
     st.sample({'banner_content': str(chunk[0][2]) + chunk[0][3][:40], 'role': chunk[0][4]}, cap=22)
+
+
+# ---- byte-level mutations of the replies that carry the peer's key material: every byte of every host-key probe reply of servers
+# presenting certificates (each CA kind) and plain keys, with single-bit flips: the reply stays a well-framed packet, only its content
+# (type strings, curve names, lengths inside the blob, key bytes) changes
+MUT_SERVERS = {
+    'edcert-ec256': (['ssh-ed25519-cert-v01@openssh.com'], dict(ca=256, ca_bits=256)),
+    'edcert-ec521': (['ssh-ed25519-cert-v01@openssh.com'], dict(ca=521, ca_bits=521)),
+    'edcert-ed': (['ssh-ed25519-cert-v01@openssh.com'], dict(ca='ed25519', ca_bits=256)),
+    'edcert-rsa': (['ssh-ed25519-cert-v01@openssh.com'], dict(ca='rsa', ca_bits=1024)),
+    'rsacert-ec384': (['ssh-rsa-cert-v01@openssh.com'], dict(ca=384, ca_bits=384, rsa_bits=1024)),
+    'plain-ec': (['ecdsa-sha2-nistp256', 'ssh-ed25519'], dict()),
+    'plain-rsa': (['rsa-sha2-512'], dict(rsa_bits=1024)),
+}
+
+
+def _mut_server(name):
+    keys, kw = MUT_SERVERS[name]
+    return peer.Server(label='M', kex=['curve25519-sha256'], key=list(keys), enc=['aes256-ctr'], mac=['hmac-sha2-256'], host_keys=peer.standard_host_keys(list(keys), **kw))
+
+
+def mutation_tasks(tier):
+    masks = (0x01, 0x80) if tier == 'quick' else (0x01, 0x02, 0x04, 0x08, 0x10, 0x20, 0x40, 0x80, 0xff)
+    out = []
+    for name in sorted(MUT_SERVERS):
+        base = H.audit(_mut_server(name), opts=['-n', '--skip-rate-test'])
+        for site in base.world.sites:
+            if site['label'] == 'kexdh_reply':
+                for off in range(site['len']):
+                    for m in masks:
+                        out.append((name, tuple(site['key']), off, m))
+    return out
+
+
+def work_mutations(chunk, st):
+    for name, key, off, mask in chunk:
+        plan = [(key, ('flip', off, mask))]
+        for fmt in ('text', 'json'):
+            srv = _mut_server(name)
+            res = H.audit(srv, opts=['-n', '--skip-rate-test'] + (['-j'] if fmt == 'json' else []), faults={key: ('flip', off, mask)})
+            res.peer = srv
+            root = ('mutation', name, key, off, mask, fmt)
+            st.execution(res.world, outcome=('mutation', name, res.status, fmt), root=root, nontrivial=root, detail='light')
+            if fmt == 'json':
+                if res.hang or res.exc or res.status not in (0, 1, 2, 3):
+                    st.violation('reply-mutation:json:status-%s:%s' % (res.status, F._trace_site(res.stdout + res.stderr)), {'server': name, 'site': list(key), 'offset': off, 'mask': mask, 'tail': (res.stdout + res.stderr)[-300:]})
+                continue
+            for sig, detail in F.judge_c09(res, 'B', plan):
+                st.violation('reply-mutation:%s' % sig, {'server': name, 'site': list(key), 'offset': off, 'mask': mask, 'what': detail, 'status': res.status, 'stdout_tail': res.stdout[-300:]})
+    st.sample({'reply_mutation': [chunk[0][0], list(chunk[0][1]), chunk[0][2], chunk[0][3]]}, cap=8)
 
 
 # environment answers around the listening socket of a client audit
@@ -250,6 +307,9 @@ def run(tier, seed):
     check_client_environment(st)
     check_client_timing(st)
     par.pmap(work_banner, banner_content_tasks(), stats=st, chunk=8)
+    muts = mutation_tasks(tier)
+    par.pmap(work_mutations, muts, stats=st, chunk=40)
+    st.extra['reply_mutations'] = len(muts)
     # replay determinism: the same plan must give the same observation when executed again (and again after other executions)
     for arch, short, plan in H.pick(all_tasks, seed + 7, 60):
         sc = F.scenario(arch, short)
